@@ -182,12 +182,26 @@ func instantiateGenericModel(
 	// is not safe to mutate.
 	clonedStruct := reducedStruct.Clone()
 
-	rawParamNames := linq.Map(typeParamReplacementNodes, func(tParamNode *SymbolNode) string {
-		if tParamNode.Kind.IsBuiltin() {
-			return tParamNode.Id.Name
+	rawParamNames := make([]string, 0, len(typeParamReplacementNodes))
+	for _, tParamNode := range typeParamReplacementNodes {
+		switch data := tParamNode.Data.(type) {
+		case *metadata.TypeParamDeclMeta:
+			rawParamNames = append(rawParamNames, data.Name)
+		case metadata.TypeParamDeclMeta:
+			rawParamNames = append(rawParamNames, data.Name)
+		default:
+			if !tParamNode.Kind.IsBuiltin() {
+				// Composite or otherwise unsupported type arguments (e.g. Box[Pair[int, string]], Box[[]bool])
+				return clonedStruct, fmt.Errorf(
+					"type argument '%s' of kind '%s' is not supported for instantiation of generic struct '%s'",
+					tParamNode.Id.Name,
+					tParamNode.Kind,
+					rawStruct.Name,
+				)
+			}
+			rawParamNames = append(rawParamNames, tParamNode.Id.Name)
 		}
-		return tParamNode.Data.(*metadata.TypeParamDeclMeta).Name
-	})
+	}
 
 	if modelNameTransformer != nil {
 		clonedStruct.Name = modelNameTransformer(clonedStruct.Name, rawParamNames)
